@@ -109,7 +109,8 @@ for _k in ('C11', 'C17'):
     NA.pop(_k, None)
 claim('C11', 'other', 'contract-based deductive verification in the string theories of z3/cvc5: line classification and name/label extraction of the bench parser for every identifier label; bounded stand-in for whole texts',
       'Proved for EVERY identifier label (incl. labels beginning with input/output/vdd/buff): printed gate lines are classified as gate definitions, INPUT(..)/OUTPUT(..) lines as declarations, comments and blanks ignored; _parse_name_gate returns exactly (label, body) for several separator layouts; '
-      'the declaration handlers recover exactly the label. Operand splitting, operator dispatch, and whole-text round trips / free layouts are bounded-only.',
+      'the declaration handlers recover exactly the label; the operator dispatch stores, for every operator name incl. the BUFF / vdd aliases, exactly one gate with the label, the denoted gate type and the operands in textual order. '
+      'Operand splitting (_parse_operator_gate) and whole-text round trips / free layouts are bounded-only.',
       T_ASSUME + 'axioms of str.strip/find/slicing/upper as encoded.', 'DESIGN.md §6 C11')
 claim('C17', 'other', 'contract-based deductive verification of the normalise/denormalise pair (real code incl. list.sort(key) symbolically executed on an interpreted Circuit, all comparison outcomes); bounded/exhaustive stand-in for the stored data and lookups',
       'Proved for every truth table of the shapes 1x2, 1x4, 2x2, 2x4, 3x2 (3x4 in thorough), all entry values: if a circuit computes the normalised rows then after denormalize() its outputs compute the original rows in the original order; normalised rows start with 0. '
